@@ -1,13 +1,17 @@
 #!/usr/bin/env python3
 """Collects confirmed seeded changes into /verif/seeded/<prop>-<n>/ and prints the catches table.
-usage: seed_report.py   (reads /tmp/mut-<prop>/seeds/<n>/ and build/seedres/<prop>-<n>.json)"""
+usage: seed_report.py   (reads build/seedres/<prop>-<n>.json and, while they exist, the seeding worktrees
+/tmp/mut-<prop> (n 1-3), /tmp/mut2-<prop> (n 4-6), /tmp/mut3-<prop> (n 7-9); afterwards seeded/<prop>-<n>/ itself)"""
 import json, os, glob, shutil, re
 ROOT = os.path.dirname(os.path.dirname(os.path.abspath(__file__)))
 rows = []
 for rp in sorted(glob.glob(os.path.join(ROOT, "build", "seedres", "C*-*.json"))):
     tag = os.path.basename(rp)[:-5]
     prop, n = tag.split("-")
-    src = "/tmp/mut-%s/seeds/%s" % (prop, n) if int(n) <= 3 else "/tmp/mut2-%s/seeds/%d" % (prop, int(n) - 3)
+    k = int(n)
+    src = ("/tmp/mut-%s/seeds/%d" % (prop, k) if k <= 3 else
+           "/tmp/mut2-%s/seeds/%d" % (prop, k - 3) if k <= 6 else
+           "/tmp/mut3-%s/seeds/%d" % (prop, k - 6))
     r = json.load(open(rp))
     confirmed = all(r.get(k) for k in ("demo_passes_pristine", "patch_applies", "builds", "suite_passes", "demo_fails_with_change"))
     dst = os.path.join(ROOT, "seeded", tag)
